@@ -86,6 +86,18 @@ func checkWireVector(env *vk.Env, v wireVec) {
 			if p.ID != 0x2a || !bytes.Equal(p.Data, exp) || !bytes.Equal(p2.Data, exp) {
 				env.Report(wireSig("Marshal/Builder do not concatenate fields in order", v.Ty, ""), fmt.Sprintf("got % x / % x want % x", p.Data, p2.Data, exp), rep)
 			}
+			// packets built earlier are values: building this one must not have changed them
+			for _, h := range wireHeld {
+				if !bytes.Equal(h.p.Data, h.exp) {
+					env.Report("a packet built by Marshal/Builder changed when a later packet was built", fmt.Sprintf("held % x want % x (after building %s)", h.p.Data, h.exp, v.Ty.class()), rep)
+					wireHeld = nil
+					break
+				}
+			}
+			wireHeld = append(wireHeld, wireHeldPk{p, exp}, wireHeldPk{p2, exp})
+			if len(wireHeld) > 8 {
+				wireHeld = wireHeld[2:]
+			}
 			d, get := c.dest("longer", v.Val)
 			var flag pk.Boolean
 			var last pk.VarInt
@@ -99,6 +111,14 @@ func checkWireVector(env *vk.Env, v wireVec) {
 	}
 	env.Distinct("vec/" + v.Ty.class())
 }
+
+type wireHeldPk struct {
+	p   pk.Packet
+	exp []byte
+}
+
+// the last few packets built by Marshal / Builder, with the bytes the specification gave for them
+var wireHeld []wireHeldPk
 
 // ---------------------------------------------------------------- random types and values (leg B)
 
